@@ -297,6 +297,17 @@ pub fn run_c09(ctx: &mut Ctx, replay: Option<&[String]>) {
         let tag2 = if o.starts_with("ok") { "result-ok" } else if o == "notfullrank" { "result-not-full-rank" } else { "result-other" };
         ctx.emit(&format!("c09 {}", sm(&h)), &o, h.num_rows() >= 2, &[fam, tag2]);
     }
+    // more than 2^16 columns, a few rows with scattered ones (column indices must not pass through a 16-bit type)
+    for (r, n) in [(2usize, 65546usize), (3, 70000), (1, 65537), (2, 65536)] {
+        let mut h = SparseMatrix::new(r, n);
+        for i in 0..r {
+            for _ in 0..rng.range(2, 6) { h.insert(i, rng.below(n)); }
+            h.insert(i, 65536.min(n - 1) - i);
+            if n > 65540 { h.insert(i, 65537 + i); }
+        }
+        let o = sys_res(&h);
+        ctx.emit(&format!("c09 {}", sm(&h)), &o, true, &["more-than-65536-columns", if o.starts_with("ok") { "result-ok" } else { "result-other" }]);
+    }
     // outside the property's quantifier (more rows than columns) but inside the model: the ParityOverdetermined branch
     for _ in 0..ctx.scale(60, 600) {
         let n = rng.range(1, 8);
